@@ -157,9 +157,11 @@ RESERVED = ("data_", "loop_", "save_", "global_", "stop_")
 SIMPLE = ["A", "B", "C", "A-2", "B-2", "AA", "HA", "IA", "2", "i", "1", "17", "-3.250", "1.00", "HOH", "G", "U",
           "O5'", "C1'", "N", "P", "OP1", "1_555", "x,y,z", "ATOM", "HETATM"]
 WORDY = ["two words", "it's", "a 'quoted' word", 'say "hi"', "5'-R(*GP*CP)-3'", "RNA (25-MER)", "x ray", "a  b",
-         "trailing;semi", "#hash", "_under", "data_x", "loop_", "$dollar", "[bracket]", ";semi"]
+         "trailing;semi", "#hash", "_under", "data_x", "loop_", "$dollar", "[bracket]", ";semi",
+         " A", "A ", "  B", "B  "]                  # blanks inside the quotes are part of the value (' A' is not 'A')
 NULLS = ["?", "."]
-TEXTS = ["line one\nline two", "multi\nline\ntext", "first\n second indented", "with 'both' \"quotes\" inside"]
+TEXTS = ["line one\nline two", "multi\nline\ntext", "first\n second indented", "with 'both' \"quotes\" inside",
+         "paragraph one\n\nparagraph two", "a\n\n\nb c"]          # blank lines inside a text field belong to the value
 
 
 def _bare_ok(v):
